@@ -1,6 +1,7 @@
 package main
 
 import (
+	"regexp"
 	"crypto/sha256"
 	"encoding/hex"
 	"encoding/json"
@@ -46,7 +47,7 @@ type native struct {
 	bin string
 }
 
-func buildNative() (*native, error) {
+func buildNative(prop string) (*native, error) {
 	dir, err := os.MkdirTemp("", "gosmt-native-")
 	if err != nil {
 		return nil, err
@@ -60,6 +61,15 @@ func buildNative() (*native, error) {
 		repl[filepath.Join(repoDir, "zz_verif", rel)] = p
 		return nil
 	})
+	if prop == "C19" {
+		// concurrency replay: the native build of the repo's packages gets scheduling points -
+		// copies of their files (regenerated from the working tree on every run) in which only
+		// the import of sync / sync/atomic is redirected to zz_verif/vsync / zz_verif/vatomic.
+		if err := syncShim(dir, repl); err != nil {
+			os.RemoveAll(dir)
+			return nil, err
+		}
+	}
 	ovb, _ := json.Marshal(map[string]interface{}{"Replace": repl})
 	ovf := filepath.Join(dir, "overlay.json")
 	os.WriteFile(ovf, ovb, 0o644)
@@ -73,6 +83,47 @@ func buildNative() (*native, error) {
 		return nil, fmt.Errorf("native build failed: %v\n%s", err, out)
 	}
 	return &native{dir: dir, bin: bin}, nil
+}
+
+var (
+	reSyncImport   = regexp.MustCompile(`(?m)^(import\s+|\s+)"sync"\s*$`)
+	reAtomicImport = regexp.MustCompile(`(?m)^(import\s+|\s+)"sync/atomic"\s*$`)
+)
+
+func syncShim(dir string, repl map[string]string) error {
+	n := 0
+	for _, pkg := range []string{"atomic", "container", "builtInFunctions"} {
+		ents, err := os.ReadDir(filepath.Join(repoDir, pkg))
+		if err != nil {
+			return err
+		}
+		for _, e := range ents {
+			name := e.Name()
+			if e.IsDir() || !strings.HasSuffix(name, ".go") || strings.HasSuffix(name, "_test.go") {
+				continue
+			}
+			src, err := os.ReadFile(filepath.Join(repoDir, pkg, name))
+			if err != nil {
+				return err
+			}
+			out := reSyncImport.ReplaceAll(src, []byte(`${1}sync "github.com/ElrondNetwork/elrond-vm-common/zz_verif/vsync"`))
+			out = reAtomicImport.ReplaceAll(out, []byte(`${1}atomic "github.com/ElrondNetwork/elrond-vm-common/zz_verif/vatomic"`))
+			if string(out) == string(src) {
+				continue
+			}
+			dst := filepath.Join(dir, "shim", pkg, name)
+			os.MkdirAll(filepath.Dir(dst), 0o755)
+			if err := os.WriteFile(dst, out, 0o644); err != nil {
+				return err
+			}
+			repl[filepath.Join(repoDir, pkg, name)] = dst
+			n++
+		}
+	}
+	if n == 0 {
+		return fmt.Errorf("concurrency shim: no file importing sync found under %s", repoDir)
+	}
+	return nil
 }
 
 func (n *native) close() { os.RemoveAll(n.dir) }
@@ -206,7 +257,7 @@ func finish(o checkOpts, seed int, start time.Time, loadTime time.Duration, repo
 	var knownConfirmed []replayFile
 	var mismatchNotes []string
 	if !o.noReplay && (len(viols) > 0 || len(knownHits) > 0 || len(models) > 0) {
-		nat, err := buildNative()
+		nat, err := buildNative(o.prop)
 		if err != nil {
 			inconcl = append(inconcl, err.Error())
 		} else {
@@ -449,7 +500,7 @@ func cmdReplay(args []string) int {
 		fmt.Fprintln(os.Stderr, err)
 		return 2
 	}
-	nat, err := buildNative()
+	nat, err := buildNative(rf.Property)
 	if err != nil {
 		fmt.Fprintln(os.Stderr, err)
 		return 2
